@@ -28,7 +28,7 @@ REQUIRED_COUNTERS = {"quick": {"cpdag:compelled-outside-vstructure": 100, "cpdag
                                "label:w-loop-compels-all": 10, "label:z-exists": 10, "label:reversible": 10},
                      "thorough": {"cpdag:compelled-outside-vstructure": 100, "cpdag:has-reversible": 1000, "pdag:no-extension": 500,
                                   "label:w-loop-compels-all": 10, "label:z-exists": 10, "label:reversible": 10}}
-N = {"quick": {"weighted": 1500, "sampled": 400}, "thorough": {"weighted": 20000, "sampled": 8000}}
+N = {"quick": {"weighted": 1500, "sampled": 900, "pdag5": 30000}, "thorough": {"weighted": 100000, "sampled": 50000, "pdag5": 0}}
 
 
 def gen(tier, seed, shard, nshards):
@@ -36,17 +36,24 @@ def gen(tier, seed, shard, nshards):
         yield "dag", c
     for c in _gc.iter_pdag_cases((1, 2, 3, 4) if tier == "quick" else (1, 2, 3, 4, 5), shard, nshards):
         yield "pdag", c
+    for code in _gc.sample_pdag5_codes(("C08", seed), N[tier]["pdag5"], shard, nshards):
+        yield "pdag", {"p": 5, "code": code}
+    for c in _gc.iter_pdag_cases((3, 4), shard, nshards):
+        yield "embedded-pdag", dict(c, P=9 + c["code"] % 5)
+    for c in _gc.iter_dag_cases((3, 4, 5), shard, nshards):
+        if c["p"] < 5 or c["code3"] % 7 == 0:
+            yield "embedded-dag", dict(c, P=9 + c["code3"] % 5)
     for k in range(N[tier]["weighted"]):
         if k % nshards == shard:
             rng = util.rng_for("C08", seed, "w", k)
-            out = _gc.sampled_dag(("C08", seed, "wd", k), 2, 7, max_edges=11)
+            out = _gc.sampled_dag(("C08", seed, "wd", k), 2, 11, max_edges=11)
             yield "weighted", {"W": gmat.weighted(rng, out)}
     for k in range(N[tier]["sampled"]):
         if k % nshards == shard:
             if k % 2:
-                yield "sampled-pdag", {"masks": _gc.sampled_pdag(("C08", seed, "sp", k), 6, 8, max_und=9, max_edges=11)}
+                yield "sampled-pdag", {"masks": _gc.sampled_pdag(("C08", seed, "sp", k), 6, 12, max_und=9, max_edges=11)}
             else:
-                yield "sampled-dag", {"masks": _gc.sampled_dag(("C08", seed, "sd", k), 6, 8, max_edges=11)}
+                yield "sampled-dag", {"masks": _gc.sampled_dag(("C08", seed, "sd", k), 6, 12, max_edges=11)}
 
 
 def setup(rec):
@@ -132,6 +139,20 @@ def _stats(rec, dag_or_none, want):
 
 def judge(family, case, rec):
     import sempler.utils as U
+    if family == "embedded-dag":
+        small = G.dag_from_code3(case["p"], case["code3"])
+        if G.n_edges(small) < 2:
+            return
+        case = dict(case, masks=gmat.embed_any(small, case["P"], util.rng_for("C08e", case["p"], case["code3"]), case.get("code", case.get("code3", 0)) // 2))
+        family = "sampled-dag"
+        rec.count("embedded:graphs")
+    elif family == "embedded-pdag":
+        small = G.pdag_from_code(case["p"], case["code"])
+        if not G.directed_part_acyclic(small) or G.n_edges(small) < 2:
+            return
+        case = dict(case, masks=gmat.embed_any(small, case["P"], util.rng_for("C08e", case["p"], case["code"]), case.get("code", case.get("code3", 0)) // 2))
+        family = "sampled-pdag"
+        rec.count("embedded:graphs")
     if family in ("dag", "sampled-dag", "weighted"):
         if family == "dag":
             out = G.dag_from_code3(case["p"], case["code3"])
@@ -139,7 +160,7 @@ def judge(family, case, rec):
             key = (case["p"], case["code3"])
         elif family == "sampled-dag":
             out = list(case["masks"])
-            A = gmat.to_np(out)
+            A = gmat.hostile_array(gmat.to_np(out), sum(out))
             key = None
         else:
             A = case["W"]
@@ -165,7 +186,7 @@ def judge(family, case, rec):
             rec.count("out_of_domain:cyclic-directed-part")
             return
         ext = G.extensions(out)
-        P = gmat.to_np(out)
+        P = gmat.hostile_array(gmat.to_np(out), sum(out) + 3)
         if not ext:
             rec.case(family, case, True, key=key)
             rec.count("pdag:no-extension")
